@@ -678,7 +678,7 @@ func main() {
 		runCase(c)
 	}
 	g := r.Rng
-	ncases := r.N(100, 3600)
+	ncases := r.N(100, 3300)
 	tf0 := tieFails // (the search for a concrete failing input goes on for six more disagreeing generated cases)
 	for i := 0; i < ncases && !propFound && tieFails-tf0 < 6; i++ {
 		if i == freshPerSnapshotCases {
